@@ -690,6 +690,7 @@ type ConsumerGroup struct {
 func (cg *ConsumerGroup) Close() error {
 	cg.closeOnce.Do(func() {
 		close(cg.done)
+		verifTrace("cg.done", cg)
 	})
 	cg.wg.Wait()
 	return nil
@@ -768,6 +769,7 @@ func (cg *ConsumerGroup) run() {
 			_ = cg.leaveGroup(memberID)
 			return
 		case cg.errs <- err:
+			verifTrace("cg.errsent", cg)
 		}
 		// backoff if needed, being sure to exit cleanly if the CG is done.
 		if backoff != nil {
@@ -776,6 +778,7 @@ func (cg *ConsumerGroup) run() {
 				// exit cleanly if the group is closed.
 				return
 			case <-backoff:
+				verifTrace("cg.backoff", cg)
 			}
 		}
 	}
